@@ -40,6 +40,8 @@ def expected_obs(shape, rec):
         out = B(truthy(out))
     if shape["part"] == "strin":
         return out
+    if shape["part"] == "pair":
+        return out + "|"
     log = "".join(str(i) for i in range(rec["n"])) if shape["form"] == "leaf" else ""
     return out + "|" + log
 
@@ -47,6 +49,8 @@ def expected_obs(shape, rec):
 def case_args(shape, rec):
     if shape["part"] == "chain":
         return rec["vals"]
+    if shape["part"] == "pair":
+        return [rec["a"], rec["b"]]
     if shape["part"] == "member":
         return [rec["x"]] + (rec["ms"] if shape["form"] != "lit" else [])
     return rec["x"]
@@ -88,8 +92,18 @@ def compare(shape, rec, want, got):
     return out
 
 
+def pclass(tok):
+    """class of a value token of the pair family"""
+    if tok in ("N", "W", "nan", "T", "Fa"):
+        return tok
+    return {"i": "int", "m": "int", "n": "int", "f": "float", "s": "str", "b": "bytes", "B": "bytearray"}[tok[0]]
+
+
 def descriptor(shape, rec):
     p = shape["part"]
+    if p == "pair":
+        return {"part": "pair", "op": shape["op"], "ty": shape["ty"], "ctx": shape["ctx"], "expected": rec["out"],
+                "a_class": pclass(rec["a"]), "b_class": pclass(rec["b"])}
     if p == "chain":
         n = rec["n"]           # operands evaluated: the deciding link is n - 1
         op = shape["ops"][n - 2]
@@ -131,38 +145,36 @@ def run(tier, seed):
         timing[what] = round(time.time() - t0, 1)
 
     # ------------------------------------------------------------------ shapes
-    shapes = {"chain": lc.chain_shapes(tier, rng), "member": lc.member_shapes(tier, rng), "strin": lc.strin_shapes(tier, rng)}
-    files = {}
+    shapes = {"chain": lc.chain_shapes(tier, rng), "pair": lc.pair_shapes(tier, rng), "member": lc.member_shapes(tier, rng), "strin": lc.strin_shapes(tier, rng)}
+    allrecs = []
     for part, sh in shapes.items():
-        recs = []
         for i, s in enumerate(sh):
             s["id"] = i
             s["name"] = part[0] + str(i)
             if part == "chain":
-                recs.append({"id": i, "ops": s["ops"], "doms": s["doms"]})
+                allrecs.append({"part": part, "id": i, "ops": s["ops"], "doms": s["doms"]})
+            elif part == "pair":
+                allrecs.append({"part": part, "id": i, "op": s["op"], "adom": s["adom"], "bdom": s["bdom"]})
             elif part == "member":
-                recs.append({"id": i, "kind": s["kind"], "neg": s["neg"], "xdom": s["xdom"], "mdoms": s["mdoms"]})
+                allrecs.append({"part": part, "id": i, "kind": s["kind"], "neg": s["neg"], "xdom": s["xdom"], "mdoms": s["mdoms"]})
             else:
-                recs.append({"id": i, "kind": s["kind"], "neg": s["neg"], "xdom": s["xdom"], "cs": s["cs"], "cint": s["cint"]})
-        files[part] = os.path.join(wd, "shapes_%s.ndjson" % part)
-        core.write_ndjson(files[part], recs)
-    # small inputs for the strict configurations (which TLC must refute)
-    files["member_strict"] = os.path.join(wd, "shapes_member_strict.ndjson")
-    core.write_ndjson(files["member_strict"], [{"id": 0, "kind": k, "neg": False, "xdom": lc.XM, "mdoms": [lc.MM]} for k in ("tuple", "set")])
-    files["strin_strict"] = os.path.join(wd, "shapes_strin_strict.ndjson")
-    core.write_ndjson(files["strin_strict"], [{"id": 0, "kind": "bytes", "neg": False, "cs": [97], "cint": True,
-                                               "xdom": [lc.xrec("int", v=v) for v in (97, 353)]}])
+                allrecs.append({"part": part, "id": i, "kind": s["kind"], "neg": s["neg"], "xdom": s["xdom"], "cs": s["cs"], "cint": s["cint"]})
+    files = {"shapes": os.path.join(wd, "shapes.ndjson"), "strict": os.path.join(wd, "shapes_strict.ndjson")}
+    core.write_ndjson(files["shapes"], allrecs)
+    # a small input for the strict configurations (which TLC must refute; thorough tier)
+    core.write_ndjson(files["strict"], [{"part": "member", "id": 0, "kind": k, "neg": False, "xdom": lc.XM, "mdoms": [lc.MM]} for k in ("tuple", "set")] +
+                      [{"part": "strin", "id": 0, "kind": "bytes", "neg": False, "cs": [97], "cint": True, "xdom": [lc.xrec("int", v=v) for v in (97, 353)]}])
 
     def ncases(part, s):
         n = 1
-        for d in (s["doms"] if part == "chain" else ([s["xdom"]] + s.get("mdoms", []))):
+        for d in (s["doms"] if part == "chain" else [s["adom"], s["bdom"]] if part == "pair" else ([s["xdom"]] + s.get("mdoms", []))):
             n *= len(d)
         return n
     want_cases = {part: sum(ncases(part, s) for s in sh) for part, sh in shapes.items()}
 
     # render chain / member / strin functions (they do not depend on TLC's output)
     funcs, pysrc, suspects = [], [lc.HEADER_PY], []
-    render = {"chain": lc.render_chain, "member": lc.render_member, "strin": lc.render_strin}
+    render = {"chain": lc.render_chain, "pair": lc.render_pair, "member": lc.render_member, "strin": lc.render_strin}
     for part, sh in shapes.items():
         for s in sh:
             pyx, py = render[part](s, s["name"])
@@ -180,7 +192,7 @@ def run(tier, seed):
     cms_mods = cms_mods + sus_mods
 
     ex = concurrent.futures.ThreadPoolExecutor(max_workers=12)
-    tl_timeout = 600 if quick else 3000
+    tl_timeout = 1500 if quick else 6000
 
     def tlc_part(part, cfg, workers, shapes_file=None, delay=0.0):
         time.sleep(delay)
@@ -191,16 +203,12 @@ def run(tier, seed):
     def tlc_run(cfg, workers, shapes_file):
         return core.tlc("Compare", cfg=cfg, workers=workers, env={"SHAPES": shapes_file or ""}, timeout=tl_timeout,
                         heap=None if quick else "12g")
-    fut = {
-        "switch": ex.submit(tlc_part, "switch", "Compare_switch3" if quick else "Compare_switch4", 4),
-        "chain": ex.submit(tlc_part, "chain", "Compare_chain", 6, files["chain"], 0.1),
-        "member": ex.submit(tlc_part, "member", "Compare_member", 4, files["member"], 0.2),
-        "strin": ex.submit(tlc_part, "strin", "Compare_strin", 1, files["strin"], 0.3),
-        "member_strict": ex.submit(tlc_part, "member", "Compare_member_strict", 1, files["member_strict"], 0.4),
-        "member_order_strict": ex.submit(tlc_part, "member", "Compare_member_order_strict", 1, files["member_strict"], 0.45),
-        "strin_strict": ex.submit(tlc_part, "strin", "Compare_strin_strict", 1, files["strin_strict"], 0.5),
-        "switch_strict": ex.submit(tlc_part, "switch", "Compare_switch_strict", 1, None, 0.6),
-    }
+    fut = {"switch": ex.submit(tlc_part, "switch", "Compare_switch3" if quick else "Compare_switch4", 4),
+           "shapes": ex.submit(tlc_part, "shapes", "Compare_shapes", max(4, core.NCPU - 6), files["shapes"], 0.2)}
+    strict = {"flatten": "FlattenStrict", "order": "FlattenOrderStrict", "strin": "StrinStrict", "switch": "SwitchStrict"}
+    if not quick:
+        for i, key in enumerate(strict):
+            fut["strict_" + key] = ex.submit(tlc_part, "strict", "Compare_strict_" + key, 1, files["strict"], 0.4 + i / 10.0)
     fbuild_cms = ex.submit(core.build_many, [core.BuildSpec(n, src, cc="clang") for n, _, src in cms_mods], os.path.join(wd, "b_cms"), 8)
 
     # ------------------------------------------------------------------ switch family: TLC first, then render
@@ -214,7 +222,7 @@ def run(tier, seed):
         core.die("Compare/switch published %d cases, expected %d" % (len(swcases), nsw_want))
     by_fam = {"bytes": [c for c in swcases if c["fam"] == "bytes" and not c["hz"]], "ustr": [c for c in swcases if c["fam"] == "ustr" and not c["hz"]]}
     hazards = [c for c in swcases if c["hz"]]
-    per_typing = 90 if quick else 420
+    per_typing = 60 if quick else 420
     swfuncs = []    # dicts: name, case, typing, kind ('chain'|'expr'), neg, ectx, pyx, py
     k = 0
     for fam, typings in lc.SW_TYPINGS.items():
@@ -248,6 +256,7 @@ def run(tier, seed):
         hzfuncs.append({"name": name, "case": c, "typing": typing, "kind": "chain", "pyx": pyx, "py": py, "hz": True})
     for f in swfuncs + hzfuncs:
         pysrc.append(f["py"])
+    mark("switch_tlc_done")
     sw_mods = modules_of([(f["name"], f["pyx"]) for f in swfuncs], "c19s")
     # the same functions with optimize.use_switch=False; the hazard chains must work there
     nosw_mods = modules_of([(f["name"], f["pyx"]) for f in swfuncs + hzfuncs], "c19n")
@@ -259,23 +268,25 @@ def run(tier, seed):
     mark("switch_rendered")
 
     # ------------------------------------------------------------------ the other TLC runs
-    published = {}
-    for part in ("chain", "member", "strin"):
-        r = fut[part].result()
-        if not r.ok:
-            core.die("TLC Compare/%s failed: %s\n%s" % (part, r.violation or r.rc, r.out[-3000:]))
-        cov["tlc"].append(dict(r.summary(), config=part))
-        if len(r.printed) != want_cases[part]:
-            core.die("Compare/%s published %d cases, expected %d" % (part, len(r.printed), want_cases[part]))
-        published[part] = r.printed
-        r.out = ""
+    r = fut["shapes"].result()
+    if not r.ok:
+        core.die("TLC Compare/shapes failed: %s\n%s" % (r.violation or r.rc, r.out[-3000:]))
+    cov["tlc"].append(dict(r.summary(), config="shapes"))
+    published = {"chain": [], "pair": [], "member": [], "strin": []}
+    for rec in r.printed:
+        published[{"c": "chain", "p": "pair", "m": "member", "s": "strin"}[rec["p"]]].append(rec)
+    r.out, r.printed = "", []
+    for part in published:
+        if len(published[part]) != want_cases[part]:
+            core.die("Compare/%s published %d cases, expected %d" % (part, len(published[part]), want_cases[part]))
     refuted = {}
-    for key, inv in (("member_strict", "FlattenStrict"), ("member_order_strict", "FlattenOrderStrict"), ("strin_strict", "StrinStrict"), ("switch_strict", "SwitchStrict")):
-        r = fut[key].result()
-        refuted[key] = r.violation
-        if r.violation != inv:
-            core.die("TLC was expected to refute %s (the model exhibits the known deviations); got %r\n%s" % (inv, r.violation, r.out[-2000:]))
-    cov["strict_invariants_refuted_by_tlc"] = refuted
+    if not quick:
+        for key, inv in strict.items():
+            r = fut["strict_" + key].result()
+            refuted[key] = r.violation
+            if r.violation != inv:
+                core.die("TLC was expected to refute %s (the model exhibits the known deviations); got %r\n%s" % (inv, r.violation, r.out[-2000:]))
+    cov["strict_invariants_refuted_by_tlc"] = refuted or "thorough tier only; the published hazard counts show the same"
 
     # vacuity guard on the model: every class of case occurs
     classes = {}
@@ -287,6 +298,9 @@ def run(tier, seed):
         cnt("chain.out." + rec["out"])
         cnt("chain.stopped_early" if rec["n"] <= len(s["ops"]) else "chain.ran_to_end")
         cnt("chain.links%d" % len(s["ops"]))
+    for rec in published["pair"]:
+        cnt("pair.out." + rec["out"])
+        cnt("pair.%s.%s" % tuple(sorted((pclass(rec["a"]), pclass(rec["b"])))))
     for rec in published["member"]:
         cnt("member.out." + rec["out"])
         cnt("member.why." + rec["why"])
@@ -299,6 +313,8 @@ def run(tier, seed):
         cnt("switch.arms%d" % len(c["arms"]))
     needed = ["chain.out." + o for o in ("True", "False", "r0", "r2", "re", "rx", "E:TypeError", "E:ValueError")] + \
              ["chain.stopped_early", "chain.ran_to_end", "chain.links1", "chain.links2", "chain.links3",
+              "pair.out.True", "pair.out.False", "pair.out.E:TypeError", "pair.out.E:ValueError", "pair.out.r0", "pair.float.int", "pair.int.int",
+              "pair.str.str", "pair.bytes.bytes", "pair.bytearray.bytes", "pair.float.nan", "pair.W.int",
               "member.out.True", "member.out.False", "member.out.E:TypeError", "member.why.identity", "member.why.unhashable", "member.why.none",
               "member.hz", "strin.out.True", "strin.out.False", "strin.out.E:TypeError", "strin.out.E:ValueError", "strin.hz",
               "switch.sw.ok", "switch.nosw.ok", "switch.sw.hz", "switch.arms1", "switch.arms3"]
@@ -316,7 +332,7 @@ def run(tier, seed):
 
     # group the published cases per function
     per_func = {}     # name -> (shape, [rec...])
-    for part in ("chain", "member", "strin"):
+    for part in ("chain", "pair", "member", "strin"):
         for rec in published[part]:
             s = shapes[part][rec["id"]]
             per_func.setdefault(s["name"], (s, []))[1].append(rec)
@@ -414,7 +430,7 @@ def run(tier, seed):
             elif f["typing"] == "obj":
                 b3["object_subject_with_switch"] += real
             else:
-                b3["model_%s_real_%s" % ("switch" if f["case"]["sw"] else "none", "switch" if real else "none")] += 1
+                b3["model_%s_real_%s" % ("switch" if f["case"]["anysw"] else "none", "switch" if real else "none")] += 1
         table = [["RX", [name, [lc.subject_arg(fdict[name]["case"]["fam"], fdict[name]["typing"], x) for x in lc.SUBJECTS]]] for name in names]
         swjobs.append((b, names, table, mode))
 
